@@ -127,7 +127,19 @@ func (h *zipHard) mutationTaint(rule string) {
 				covered[a] = true
 			}
 			for _, a := range h.mutArgs(call) {
-				if !t[a] || covered[a] {
+				if !t[a] {
+					continue
+				}
+				if covered[a] {
+					// R1 answers for this argument - with ITS sink set. When R1 accepts the call because the repository
+					// function it goes to makes the test itself, that function must make it before the mutators R1
+					// does not know as well (v_zip_u.go); reported only when it does not.
+					if cal := ir.StaticCallee(call); cal != nil && h.env.inPkg[cal] && len(h.reachMut[cal]) > 0 {
+						if g, _, err := h.guardedSink(fn, t, call, a); err == nil && !g && !h.calleeGuards(call, a, h.mutArgs, 0) && h.calleeGuards(call, a, h.r1Sinks, 0) {
+							c.Decide(rule, fn, "entry name -> "+shortCallee(call)+" makes the containment test before every call that changes the file system", call, false,
+								"the repository function the entry name is handed to tests it before it creates, but not before every call that removes or changes a file-system object: for an entry named ../x or /abs an object outside of the destination directory is removed or changed")
+						}
+					}
 					continue
 				}
 				n++
@@ -136,6 +148,9 @@ func (h *zipHard) mutationTaint(rule string) {
 				if err != nil {
 					c.Undecided(rule, fn, construct, call, err.Error())
 					continue
+				}
+				if !guarded && h.calleeGuards(call, a, h.mutArgs, 0) {
+					guarded = true // the function the name is handed to makes the test itself (v_zip_u.go)
 				}
 				detail := "a path built from a zip entry name reaches " + ir.CalleeFullName(call) + " without a containment test known to have succeeded on it: for an entry named ../x or /abs an object outside of the destination directory is removed or changed"
 				if !guarded && weak != "" {
